@@ -27,6 +27,6 @@ CHECKS['C20'] = {
         'termination is judged by the number of recorded backend calls (bound n+1 per backend; stubs stop a runaway loop after 120 calls), never by the clock',
     ],
     'units': [
-        unit('list', 'federation_c20', '^TestVerifC20', {'shards': 8, 'checks': 2000}, {'shards': 16, 'checks': 250000, 'timeout': 1500}),
+        unit('list', 'federation_c20', '^TestVerifC20', {'shards': 8, 'checks': 2000}, {'shards': 16, 'checks': 600000, 'timeout': 3000}),
     ],
 }
